@@ -260,3 +260,121 @@ def run(ctx, rep):
                                if hit else "final overrider %s never calls %s" % (body.name, ov["setter"])))
     rep.floor("concrete encoder overriders of the count computation", n_over,
               tab["overriders_floor"])
+    optfree(ctx, rep, tab)
+    sectorclose(ctx, rep)
+
+
+def optfree(ctx, rep, tab):
+    """OPTFREE: the functions that compute the reported counts derive them from the geometry and the
+    encoder's recorded state, never by reading the encoder options again: a second copy of an
+    option-dependent decision (split on seams, speed thresholds) can disagree with the one the encoder
+    actually took - the reported count then differs from the decoded one for some option set."""
+    F = ctx.F
+    rep.rules_text.append(
+        "OPTFREE: no final overrider of ComputeNumberOfEncodedPoints / ComputeNumberOfEncodedFaces (nor a "
+        "helper it calls on the same object or its implementation object) calls an option getter "
+        "(*Options*::Get*/Is*Set/GetSpeed): counts follow what was encoded, not a re-derivation from the options")
+    names = {(ov["method"]) for ov in tab["overriders"]}
+
+    def is_opt_call(n):
+        b = call_base(n)
+        cls = b.rsplit("::", 1)[0]
+        short = b.rsplit("::", 1)[-1]
+        return ("Options" in cls and (short.startswith(("Get", "Is")))) or short in ("GetSpeed",)
+    n_fn = 0
+    fired = False
+    for fn in F.fns.values():
+        is_ctl = fn.name.startswith("verif_control::") and fn.name.endswith("c09_optfree_bad")
+        if not is_ctl and not (fn.base.rsplit("::", 1)[-1] in names and fn.cls and
+                               F.derives_from(strip_targs(fn.cls), "draco::PointCloudEncoder")):
+            continue
+        # the function and the draco callees it reaches without leaving the encoder objects (depth 2)
+        todo, seen = [(fn, 0)], set()
+        hits = []
+        while todo:
+            f, d = todo.pop()
+            if f.key in seen:
+                continue
+            seen.add(f.key)
+            for n, b, rk, ev in f.calls():
+                if n.get("k") != "call":
+                    continue
+                if is_opt_call(n) and b in f.reach_all():
+                    hits.append("%s at %s" % (call_base(n).replace("draco::", ""), f.site(n.get("loc", ""))))
+                elif d < 2 and call_base(n).startswith("draco::Mesh") and "Encoder" in call_base(n):
+                    for t in F.targets(n):
+                        todo.append((t, d + 1))
+        if not is_ctl:
+            n_fn += 1
+        fired |= is_ctl and bool(hits)
+        rep.add(Obligation("OPTFREE", fn.base, "count computation reads no options", fn.loc,
+                           VIOLATION if hits else DISCHARGED,
+                           detail="re-derives an encoder decision from the options: %s" % hits[:3] if hits else
+                           "derived from the geometry and the encoder's state (%d functions inspected)" % len(seen),
+                           control=is_ctl))
+    rep.floor("count-computing overriders inspected by OPTFREE", n_fn, 5)
+    rep.control("OPTFREE", "c09_optfree_bad", fired, "option read inside a count computation must be reported")
+
+
+def sectorclose(ctx, rep):
+    """SECTORCLOSE: the Edgebreaker point counter adds `seams - 1` new points only for a vertex whose sectors
+    close into a cycle.  Whether they do is a fact of the connectivity (the decoder's AssignPointsToCorners
+    tests is_vert_hole_[v]); two different sectors may carry the same point id, so a test on point ids alone
+    miscounts boundary vertices.  Obligation: the branch that selects the `- 1` form is decided by a
+    corner-table predicate or a comparison of corner indices."""
+    from ..cfgutil import dominating_edges
+    F = ctx.F
+    rep.rules_text.append(
+        "SECTORCLOSE: in MeshEdgebreakerEncoder::ComputeNumberOfEncodedPoints the update `num_points += seams - 1` "
+        "is dominated, inside the per-vertex loop, by a condition that consults the connectivity (a CornerTable "
+        "predicate on the vertex or a comparison of CornerIndex values), not only point ids / counters")
+    n = 0
+    for fn in F.need("draco::MeshEdgebreakerEncoder::ComputeNumberOfEncodedPoints"):
+        loops = fn.loops()
+        for blk, rk, tree, ev in fn.roots():
+            if tree is None:
+                continue
+            for nd in walk(tree):
+                if nd.get("k") != "bin" or nd.get("op") != "+=":
+                    continue
+                r = nd.get("r")
+                while isinstance(r, dict) and r.get("k") in ("icast", "cast"):
+                    r = r.get("e")
+                if not (isinstance(r, dict) and r.get("k") == "bin" and r.get("op") == "-" and
+                        isinstance(r.get("r"), dict) and r["r"].get("v") == 1):
+                    continue
+                b = nd.get("b", blk.id)
+                inner = sorted([l for l in loops if b in l[1]], key=lambda l: len(l[1]))
+                body = inner[0][1] if inner else set(fn.blocks)
+                topo = None
+                edges = [(cb, oc, cond) for cb, oc, cond in dominating_edges(fn, b)
+                         if cb.id in body and not isinstance(oc, tuple)]
+                # the innermost statement that decides between the two updates: the dominating condition
+                # blocks of the closest if-statement (an `a && b` condition is several blocks, one tloc)
+                doms = fn.doms().get(b, set())
+                edges.sort(key=lambda e_: len(fn.doms().get(e_[0].id, ())), reverse=True)
+                near = edges[:1]
+                grew = True
+                while grew:           # short-circuit operands of the same condition (`a && b` is two blocks)
+                    grew = False
+                    ids = {e_[0].id for e_ in near}
+                    for e_ in edges:
+                        if e_[0].id not in ids and (e_[0].term or "").startswith("BinaryOperator") and \
+                                set(fn.succs(e_[0].id)) & ids:
+                            near.append(e_)
+                            grew = True
+                for cb, oc, cond in near:
+                    for x in walk(cond):
+                        if x.get("k") == "call" and strip_targs(x.get("fn") or "").startswith(
+                                ("draco::CornerTable::", "draco::MeshAttributeCornerTable::")) and \
+                                (x.get("ret") or "") == "bool":
+                            topo = "`%s` at %s" % (cb.condsrc, fn.site(cb.tloc or ""))
+                        if x.get("k") in ("var", "field") and "CornerIndex_tag" in (x.get("t") or ""):
+                            topo = topo or "`%s` at %s" % (cb.condsrc, fn.site(cb.tloc or ""))
+                n += 1
+                rep.add(Obligation("SECTORCLOSE", fn.base, "num_points += seams - 1", fn.site(nd.get("loc", "")),
+                                   DISCHARGED if topo else VIOLATION,
+                                   detail="closed-fan case selected by " + topo if topo else
+                                   "the `- 1` (closed fan) case is selected without consulting the connectivity: "
+                                   "point ids of the first and last sector can coincide on a boundary vertex"))
+    rep.floor("closed-fan adjustments in the Edgebreaker point counter", n, 1)
